@@ -146,4 +146,97 @@ func c02cli(c *h.Ctx) {
 		c.Count("cli_redundant_dependency_shapes", 1)
 		c.Nontrivial("cli-redundant" + sh.name)
 	})
+	// stage names as people write them ("group:step", dots, dashes, blanks), chosen so that one name is the
+	// concatenation of two others: random DAGs over them, one stage fails, exactly its dependants do not run
+	pool := []string{"build", "build:docker", "docker:push", "push", "docker", "build:docker:push", "a", "a:b", "b", "b:c", "c", "a:b:c", "lint.go", "lint", "go", "x-y", "x", "y", "x y"}
+	h.Par(c.N(24, 300), 8, func(i int) {
+		r := h.NewRand(c.Seed*7477+int64(i), "c02names")
+		d := fmt.Sprintf("%s/n%d", dir, i)
+		os.MkdirAll(d, 0o755)
+		trace := d + "/trace"
+		tok := func(s string) string { return fmt.Sprintf("printf '%%s\\n' '%s' >> '%s'", s, trace) }
+		var names []string
+		if i%3 == 0 {
+			// the four names whose edges read alike when written from:to
+			names = [][]string{{"build", "docker:push", "build:docker", "push"}, {"a", "b:c", "a:b", "c"}, {"build:docker", "push", "build", "docker:push"}}[(i/3)%3]
+		} else {
+			for _, k := range r.Perm(len(pool))[:r.Range(4, 6)] {
+				names = append(names, pool[k])
+			}
+		}
+		n := len(names)
+		deps := make([][]int, n)
+		if i%3 == 0 {
+			deps[1], deps[3] = []int{0}, []int{2}
+		} else {
+			for j := 1; j < n; j++ {
+				for k := 0; k < j; k++ {
+					if r.Chance(40) {
+						deps[j] = append(deps[j], k)
+					}
+				}
+			}
+		}
+		fail := r.Intn(n)
+		if i%3 == 0 {
+			fail = 2
+		}
+		blocked := make([]bool, n)
+		for j := 0; j < n; j++ { // indices are in topological order
+			for _, k := range deps[j] {
+				if k == fail || blocked[k] {
+					blocked[j] = true
+				}
+			}
+		}
+		tasks := gen.OM{}
+		stages := make([]interface{}, 0, n)
+		order := r.Perm(n)
+		if i%3 == 0 {
+			order = []int{0, 1, 2, 3}
+		}
+		for _, j := range order {
+			cmd := tok(names[j])
+			if j == fail {
+				cmd = "sleep 0.3; " + cmd + "; exit 3"
+			}
+			tasks.Set(names[j], gen.OM{{K: "command", V: []interface{}{cmd}}})
+			st := gen.OM{{K: "name", V: names[j]}, {K: "task", V: names[j]}}
+			var dl []interface{}
+			for _, k := range deps[j] {
+				dl = append(dl, names[k])
+			}
+			if len(dl) > 0 {
+				st.Set("depends_on", dl)
+			}
+			stages = append(stages, st)
+		}
+		cfg := gen.OM{{K: "tasks", V: tasks}, {K: "pipelines", V: gen.OM{{K: "p", V: stages}}}}
+		h.WriteFile(d+"/tasks.yaml", gen.YAML(cfg))
+		res := tc{Dir: d, Timeout: 60 * time.Second}.run(c, "-o", "raw", "p")
+		c.Eval(1)
+		got := lines(h.ReadFile(trace))
+		cas := map[string]interface{}{"yaml": gen.YAML(cfg), "ran": got, "fails": names[fail], "exit": res.Exit, "stderr": tail(stripANSI(string(res.Stderr)), 400)}
+		if crashed, how := res.CrashedNotByStatus(); crashed {
+			c.Violate("cli-crash/"+h.TopFrame(string(res.Stderr)), "taskctl died: "+how, cas)
+			return
+		}
+		ran := map[string]int{}
+		for _, g := range got {
+			ran[g]++
+		}
+		for j := 0; j < n; j++ {
+			switch {
+			case blocked[j] && ran[names[j]] > 0:
+				c.Violate("cli/ran-behind-failed-dependency", fmt.Sprintf("stage %q depends (transitively) on the failed stage %q and ran all the same (ran: %v)", names[j], names[fail], got), cas)
+			case !blocked[j] && ran[names[j]] != 1:
+				c.Violate("cli/independent-stage-did-not-run", fmt.Sprintf("stage %q does not depend on the failed stage %q; it ran %d times (ran: %v)", names[j], names[fail], ran[names[j]], got), cas)
+			}
+		}
+		if res.Exit == 0 {
+			c.Violate("cli/error-flag-differs", fmt.Sprintf("stage %q failed without allow_failure, exit status 0", names[fail]), cas)
+		}
+		c.Count("cli_punctuated_name_graphs", 1)
+		c.Nontrivial("cli-names" + gen.YAML(cfg))
+	})
 }
